@@ -15,6 +15,7 @@ package rapid
 //              word until the bias block has left overflow mode          (H_C12_shape, H_C12_monotone)
 
 import (
+	"fmt"
 	"math"
 	"time"
 )
@@ -549,4 +550,132 @@ func H_C12_binSearchInduct() {
 	// returned: either the first probe (best-1) was rejected, or the loop ran to its end
 	vassert(m.best == th, "C12: binSearch does not end at the least value satisfying a monotone condition")
 	reach("returned")
+}
+
+// H_C12_nativeEndToEnd (native only; confirmation of a failed C12 lemma): the statement itself,
+// end to end, on the real Check machinery: threshold properties over integer kinds, both
+// directions, thresholds of every magnitude (small, powers of two +-1, the top band), failing by
+// Fatalf and by a panic whose message names the value, several seeds, swept in one process; and
+// "at least k elements" for slices, strings and maps. The reported counterexample must be the
+// exact boundary. Does nothing under gosym.
+func H_C12_nativeEndToEnd() {
+	if symbolic() {
+		return
+	}
+	flags.nofailfile = true
+	flags.checks = 100
+	flags.shrinkTime = 30 * time.Second
+	bad := 0
+	final := func(prop func(*T)) bool {
+		tb := newVTB("E2E")
+		runIsolated(func() { checkTB(tb, time.Now().Add(time.Hour), prop) })
+		return len(tb.errorfs) == 1
+	}
+	for seed := uint64(1); seed <= 3; seed++ {
+		flags.seed = seed
+		for _, usePanic := range []bool{false, true} {
+			fail := func(t *T, v any) {
+				if usePanic {
+					panic(fmt.Sprintf("value %v is beyond the threshold", v))
+				}
+				t.Fatalf("beyond the threshold")
+			}
+			for _, k := range []int64{1, 5, 6, 100, 1000, 1<<31 + 1, 1<<40 + 12345, 1<<62 - 1, 1 << 62, 1<<62 + 1, math.MaxInt64 - 1} {
+				var last int64
+				if final(func(t *T) {
+					v := Int64().Draw(t, "v")
+					last = v
+					if v >= k {
+						fail(t, v)
+					}
+				}) && last != k {
+					bad++
+				}
+				if final(func(t *T) {
+					v := Int64().Draw(t, "v")
+					last = v
+					if v <= -k {
+						fail(t, v)
+					}
+				}) && last != -k {
+					bad++
+				}
+			}
+			for _, k := range []uint64{1, 7, 255, 1 << 33, 1<<63 + 5, 1<<63 + 1<<62, math.MaxUint64 - 3} {
+				var last uint64
+				if final(func(t *T) {
+					v := Uint64().Draw(t, "v")
+					last = v
+					if v >= k {
+						fail(t, v)
+					}
+				}) && last != k {
+					bad++
+				}
+			}
+			for _, k := range []int8{1, 3, 100, 126} {
+				var last int8
+				if final(func(t *T) {
+					v := Int8().Draw(t, "v")
+					last = v
+					if v >= k {
+						fail(t, v)
+					}
+				}) && last != k {
+					bad++
+				}
+			}
+		}
+		for _, k := range []int{0, 1, 2, 5, 17, 32} {
+			var lastS []int
+			if final(func(t *T) {
+				s := SliceOf(Int()).Draw(t, "s")
+				lastS = s
+				if len(s) >= k {
+					t.Fatalf("too long")
+				}
+			}) {
+				ok := len(lastS) == k
+				for _, e := range lastS {
+					ok = ok && e == 0
+				}
+				if !ok {
+					bad++
+				}
+			}
+			var lastStr string
+			if final(func(t *T) {
+				s := String().Draw(t, "s")
+				lastStr = s
+				n := 0
+				for range s {
+					n++
+				}
+				if n >= k {
+					t.Fatalf("too long")
+				}
+			}) {
+				n := 0
+				for range lastStr {
+					n++
+				}
+				if n != k {
+					bad++
+				}
+			}
+			var lastM map[int]bool
+			if k <= 17 && final(func(t *T) {
+				m := MapOf(Int(), Bool()).Draw(t, "m")
+				lastM = m
+				if len(m) >= k {
+					t.Fatalf("too big")
+				}
+			}) && len(lastM) != k {
+				bad++
+			}
+		}
+	}
+	flags.seed = 0
+	observe("not-at-boundary", uint64(bad))
+	vassert(bad == 0, "C12: end to end, Check reported a counterexample that is not the exact boundary of a threshold property")
 }
